@@ -5,13 +5,16 @@ from checks.bbi_family import *
 def main():
     run = Run("C07")
     cfgs = ["MC_BigWig_z_t1.cfg", "MC_BigWig_z_t2.cfg"] if run.thorough else ["MC_BigWig_z_q1.cfg", "MC_BigWig_z_q2.cfg"]
-    beh = [b for b in emit(run, "MC_BigWig", cfgs) if b["zooms"]]
     sizes = lambda b: [b["L"]] * b["NC"]
-    cases = make_cases(beh, "bw", sizes, run, zq=1)
-    # the same layouts under an affine embedding of positions (resolutions scale with it: exact)
-    emb = make_cases(beh[::5], "bw", sizes, run, zq=0)
-    for k, c in enumerate(emb):
-        c["scale"] = [7, 1000, 65536][k % 3]
+
+    def build(beh, k0):
+        beh = [b for b in beh if b["zooms"]]
+        cases = make_cases(beh, "bw", sizes, run, zq=1, k0=k0)
+        # the same layouts under an affine embedding of positions (resolutions scale with it: exact)
+        emb = make_cases(beh[::5], "bw", sizes, run, zq=0, k0=k0)
+        for k, c in enumerate(emb):
+            c["scale"] = [7, 1000, 65536][k % 3]
+        return cases + emb
     # automatic zoom ladders need inputs large enough for a level to be kept (levels are pruned by size):
     # longer seeded inputs, small items_per_slot, initial zoom size 10 or 160, single and two pass
     import random as _r
@@ -43,7 +46,8 @@ def main():
         span = any(it[2] - it[1] > z for it in its)
         return gap or span
     desc = lambda o: {k: o["obs"].get(k) for k in ("result", "err", "zooms", "zint", "unmapped")}
-    obs = judge(run, "C07", "Obs_BigWig", cases + emb + auto, nt, desc)
+    obs = run_batches(run, "C07", "MC_BigWig", cfgs, "Obs_BigWig", nt, desc, build)
+    obs += judge(run, "C07", "Obs_BigWig", auto, nt, desc)
     autos = [o for o in obs if o["opts"].get("zmode") == "auto"]
     run.cov["automatic_zoom_cases"] = len(autos)
     run.cov["automatic_zoom_levels_kept"] = [len(o["obs"].get("zooms", [])) for o in autos]
